@@ -37,6 +37,10 @@ def gen_rule(rng, nslots):
                 bc += [DELETE]; out_len -= 1; i -= 1
                 if rng.random() < 0.12:                      # the rule ends on the DELETE: no NEXT moves the map cursor off the deleted entry
                     return pos, ln, pre, bc + [RET_ZERO]
+                if rng.random() < 0.3:                       # INSERT while the cursor may still stand on the deleted slot (it does when that was the first slot of the segment)
+                    bc += [INSERT]; out_len += 1
+                    if rng.random() < 0.5:
+                        n = rng.randrange(1, 3); bc += [ASSOC, n] + [rel() & 255 for _ in range(n)]
                 break
             else:
                 bc += [PUSH_BYTE, rng.randrange(0, 100), ATTR_SET, rng.choice((ADV_X, ATT_X))]
